@@ -241,6 +241,45 @@ pub fn run(ctx: &Ctx) {
             }
         }
     }
+    // long inputs: the string constructors take text of ANY length (the grammar has no upper bound on the
+    // number of location codes, and nothing says the input is at most one frame long): headers with 33..70
+    // locations (269..530 bytes), also followed by trailing bytes, and with one multi-byte character or one
+    // other edit placed at every offset around the frame-length marks 252 / 268 and at random offsets
+    for i in 0..(if ctx.tier_thorough { 3000 } else { 260 }) {
+        let nloc = 33 + (i % 38);
+        let mut g = gen_header(&mut rng, 31, 3 + i % 6);
+        while g.locs.len() < nloc {
+            g.locs.push(digits(&mut rng, 6));
+        }
+        let mut v = g.text().into_bytes();
+        if i % 3 == 1 {
+            v.extend(trailing(&mut rng));
+        }
+        out.count(&format!("long_header_bytes:{}", if v.len() <= 268 { "<=268" } else if v.len() <= 400 { "269..400" } else { ">400" }));
+        match i % 4 {
+            0 => {}
+            1 | 2 => {
+                // a multi-byte character straddling / next to a mark
+                let ch: &[u8] = *rng.pick(&["\u{e9}".as_bytes(), "\u{20ac}".as_bytes(), "\u{1f600}".as_bytes()]);
+                let p = if i % 4 == 1 { (240 + (i / 4) % 70).min(v.len()) } else { rng.below(v.len() as u64 + 1) as usize };
+                if rng.chance(1, 2) || p >= v.len() {
+                    v.splice(p..p, ch.iter().copied());
+                } else {
+                    v.splice(p..p + 1, ch.iter().copied());
+                }
+                out.count("long_header:multibyte_edit");
+            }
+            _ => {
+                let p = rng.below(v.len() as u64) as usize;
+                v[p] = *rng.pick(b"-+0123456789AZaz \n");
+                out.count("long_header:ascii_edit");
+            }
+        }
+        run_hdr(&mut out, &v, true);
+        if std::str::from_utf8(&v).is_ok() {
+            out.run(&format!("msgstr {}", hex(&v)), true);
+        }
+    }
     // unstructured
     for _ in 0..(if ctx.tier_thorough { 20000 } else { 2000 }) {
         let n = rng.range(0, 60) as usize;
